@@ -765,8 +765,10 @@ def _sort_slice(M, a, stable):
                 break
             items[base + j], items[base + j - 1] = items[base + j - 1], items[base + j]
             j -= 1
-    if ties and not stable:
-        raise Unsupported('sort.Slice with equal elements: resulting order is algorithm specific')
+    if ties and not stable and n > 12:
+        # sort.Slice is pdqsort: slices of at most 12 elements are sorted by plain insertion sort (which is what ran above, ties
+        # keep their input order); for longer slices the order of equal elements depends on the algorithm's pivots
+        raise Unsupported('sort.Slice of more than 12 elements with equal elements: resulting order is algorithm specific')
     return None
 
 
